@@ -188,7 +188,7 @@ def fold_helpers(repo, res):
             for a in args:
                 want = want * value(a)
             try:
-                r = it.call_func(fp.node, [list(args)])
+                r = it.call_f(fp, [list(args)])
             except Raised as e:
                 res.fail("float_product", f"float_product([{', '.join(combo)}]) raises {e.what}", m.line(fp.node))
                 continue
